@@ -87,6 +87,13 @@ def case(draw):
         head = draw(st.sampled_from(["", "name a\nversion 1.0\n", "name a\nversion 1.0\ntarget x (a=1)\n"]))
         return {"kind": kind, "text": head + "".join(t + s for t, s in zip(toks, seps))}
     text = draw(base_text())
+    le = draw(st.sampled_from(["lf", "lf", "lf", "crlf", "cr", "no-final-newline", "crlf-no-final-newline"]))
+    if le.startswith("crlf"):
+        text = text.replace("\r\n", "\n").replace("\n", "\r\n")
+    elif le == "cr":
+        text = text.replace("\r\n", "\n").replace("\n", "\r")
+    if le.endswith("no-final-newline"):
+        text = text.rstrip("\r\n")
     if kind == "valid":
         return {"kind": kind, "text": text}
     toks = ref.ref_tokens(text)[:-1]
@@ -206,6 +213,22 @@ def check(c):
         if err is not None:
             out.violations.append(Violation("grammatical-rejected|" + exc_bucket("syntax", err),
                                             "grammatical text rejected by the syntax stage: %s: %s\ntext: %r" % (type(err).__name__, err, text)))
+            return out
+        # the public entry point must see the same text as the parser: loads(s) is parse(InputStream(s))
+        p1, e1 = K.safe_loads(text)
+        try:
+            with warnings.catch_warnings():
+                warnings.simplefilter("ignore")
+                parse(antlr4.InputStream(text))
+            e2 = None
+        except RecursionError:
+            return Outcome(discard="recursion")
+        except Exception as ex:
+            e2 = ex
+        if (e1 is None) != (e2 is None) or (e1 is not None and (type(e1) is not type(e2) or str(e1) != str(e2))):
+            out.violations.append(Violation("loads-differs-from-parse|%s-vs-%s" % (type(e1).__name__ if e1 else "program", type(e2).__name__ if e2 else "program"),
+                                            "loads(text): %s; parse(InputStream(text)): %s\ntext: %r" % (
+                                                "%s: %s" % (type(e1).__name__, e1) if e1 else "program", "%s: %s" % (type(e2).__name__, e2) if e2 else "program", text)))
         return out
     ctx = context_of(toks, k)
     out.classes.append("context:" + ctx)
@@ -239,6 +262,12 @@ def check(c):
     elif not isinstance(e, BlackbirdSyntaxError):
         out.violations.append(Violation("loads-wrong-exception|" + exc_bucket("loads", e),
                                         "loads raised %s: %s\ntext: %r" % (type(e).__name__, e, text)))
+    else:
+        m2 = _POS.search(str(e))
+        hit2 = [i for i, t in enumerate(toks) if m2 and t.line == int(m2.group(1)) and t.col + 1 == int(m2.group(2))]
+        if not hit2 or max(hit2) < k:
+            out.violations.append(Violation("loads-position|" + ctx, "loads reports %s, which is not the position of a token at or after the first "
+                                            "ungrammatical token %r at %d:%d\ntext: %r" % (str(e)[:160], toks[k].text, toks[k].line, toks[k].col + 1, text)))
     if text.isascii() and (len(text) % 5 == 0):
         d = tempfile.mkdtemp(prefix="bbv-c10-")
         try:
